@@ -1,7 +1,15 @@
 pub mod c01;
+pub mod c02;
+pub mod c03;
 pub mod c04;
+pub mod c05;
+pub mod makers;
 pub mod c06;
 pub mod c07;
+pub mod c10;
+pub mod c11;
+pub mod c17;
+pub mod statespace;
 pub mod lin;
 pub mod common;
 
@@ -16,9 +24,15 @@ pub struct Outcome {
 pub fn run(id: &str, reg: &dyn Registry, ctx: &Ctx) -> Option<Outcome> {
     match id {
         "C01" => Some(c01::run(reg, ctx)),
+        "C02" => Some(c02::run(reg, ctx)),
+        "C03" => Some(c03::run(reg, ctx)),
         "C04" => Some(c04::run(reg, ctx)),
+        "C05" => Some(c05::run(reg, ctx)),
         "C06" => Some(c06::run(reg, ctx)),
         "C07" => Some(c07::run(reg, ctx)),
+        "C10" => Some(c10::run(reg, ctx)),
+        "C11" => Some(c11::run(reg, ctx)),
+        "C17" => Some(c17::run(reg, ctx)),
         _ => None,
     }
 }
